@@ -15,16 +15,38 @@ namespace Discret.LocalWrite
 open Discret.Room
 
 /-- **C12 (row level, both directions).** Intended behaviour on both sides. A change that writes row `n` into a
-    room at date `now` — a new row, an own row, a foreign row, a row arriving from another room — gets the same
-    verdict from the local right check as the signed row gets from `validate_node` on a peer that holds the same
-    room definitions and the same previous version: accepted locally iff accepted by the peer. Same author
-    (the caller signs), same entity, same rooms (the room entered and the room left), same date, same needed
-    right (own-rows iff the previous author is the caller or there is no previous version). -/
+    room at date `now` — a new row, an own row, a foreign row, a row arriving from another room — and that removes no
+    reference signed by somebody else gets the same verdict from the local right check as the signed row gets from
+    `validate_node` on a peer that holds the same room definitions and the same previous version: accepted locally
+    iff accepted by the peer. Same author (the caller signs), same entity, same rooms (the room entered and the room
+    left), same date, same needed right (own-rows iff the previous author is the caller or there is no previous
+    version). (A change that removes references of other authors: `C12_change_verdict`.) -/
 theorem C12_row_verdict {rooms : List Room} {caller : Key} {now : Int} {c : Change} {n : Row} {rid : Id}
     (hroom : c.roomId = some rid) (hn : n.room = some rid) (he : n.entity = c.entity) (hd : n.mdate = now)
-    (hold : ∀ o, c.old = some o → o.entity = c.entity ∧ o.room ≠ none) :
+    (hold : ∀ o, c.old = some o → o.entity = c.entity ∧ o.room ≠ none)
+    (hown : c.edgeDels.any (fun e => e.author != caller) = false) :
     localOk Defects.none rooms caller now c = peerOk Ingest.Defects.none rooms caller c n :=
-  row_verdict_none hroom hn he hd hold
+  row_verdict_of rfl (Or.inr hown) hroom hn he hd hold
+
+/-- **C12 (change level, both directions: row AND deletion records).** Intended behaviour on the local side, any
+    switches on the peer's. A change that writes row `n` into room `rid` at date `now` and removes the references
+    `c.edgeDels` is accepted locally **iff** a peer holding the same room definitions (`p.rooms = rooms`), the same
+    previous version of the row and the removed references (with their authors) accepts the row (`validate_node`)
+    and every deletion record the change sends (`validate_edge_deletions`: own-rows right for a reference of the
+    record's author, all-rows right for somebody else's). `Normalised`: what `EntityRight::new` guarantees. -/
+theorem C12_change_verdict {d : Ingest.Defects} {p : Ingest.Inst} {rooms : List Room} (hp : p.rooms = rooms)
+    {caller : Key} {now : Int} {c : Change} {n : Row} {rid : Id}
+    (hroom : c.roomId = some rid) (hn : n.room = some rid) (he : n.entity = c.entity) (hd : n.mdate = now)
+    (hold : ∀ o, c.old = some o → o.entity = c.entity ∧ o.room ≠ none)
+    (hent : DataEnt d c.entity) (hnorm : ∀ room, getRoom rooms rid = some room → Normalised room)
+    (hsrc : ∀ e ∈ c.edgeDels, d.edgeDelSourceUnchecked = true ∨
+      Ingest.edgeDelSourceOk p (toEdgeDel c.entity (tombOf rid caller now e)) = true)
+    (hheld : ∀ e ∈ c.edgeDels,
+      (p.edges.find? (Ingest.edgeMatches (toEdgeDel c.entity (tombOf rid caller now e)))).map (·.key) = some e.author) :
+    localOk Defects.none rooms caller now c =
+      (peerOk Ingest.Defects.none rooms caller c n &&
+        c.edgeDels.all fun e => Ingest.edgeDelAccepted d p (toEdgeDel c.entity (tombOf rid caller now e))) :=
+  change_verdict_none hp hroom hn he hd hold hent hnorm hsrc hheld
 
 /-- **C12 (operation level: accepted locally ⇒ accepted by the peers).** Intended behaviour. After an accepted
     mutation, every row that was written into a room (and whose previous version, if any, was in a room) is
@@ -43,15 +65,20 @@ theorem C12_accepted_rows_reach_peers {rooms : List Room} {db db' : Db} {caller 
   · cases h
   · rename_i l hv
     have hpl := plan_planned hp c hc
-    rw [← row_verdict_none hroom ((hpl.node n hn).2.trans hroom) (hpl.node n hn).1 hd hold]
+    have hrule : localOk { Defects.none with refRemovalRightOnRowAuthor := true } rooms caller now c =
+        peerOk Ingest.Defects.none rooms caller c n :=
+      row_verdict_of rfl (Or.inl rfl) hroom ((hpl.node n hn).2.trans hroom) (hpl.node n hn).1 hd hold
+    rw [← hrule]
     -- the local check of `c` passed
     have hne : c.node ≠ none := by rw [hn]; exact fun e => by cases e
     obtain ⟨hmap, hall⟩ := validateList_ok hv
     have : c ∈ l.map (·.1) := by rw [hmap]; exact hc
     obtain ⟨ct, hct, rfl⟩ := List.mem_map.mp this
     have ht := (hall ct hct).2 hne rfl
-    unfold localOk
-    rw [ht]; rfl
+    have hfull : localOk Defects.none rooms caller now ct.1 = true := by unfold localOk; rw [ht]; rfl
+    rw [localOk_split hroom] at hfull
+    simp only [Bool.and_eq_true] at hfull
+    exact hfull.1
 
 /-- **C12 (operation level: refused by the peers ⇒ refused locally).** Intended behaviour. If a peer holding the
     same definitions and previous versions would refuse a row the mutation writes, the mutation is refused
@@ -65,6 +92,113 @@ theorem C12_peer_refusal_is_local_refusal {rooms : List Room} {db : Db} {caller 
   intro db' h
   have := C12_accepted_rows_reach_peers hp h c hc n rid hn hroom hd hold
   rw [hpeer] at this; cases this
+
+/-- **C12 (operation level: the deletion records of an accepted mutation reach the peers).** Intended behaviour.
+    After an accepted mutation (a tree of any depth), every deletion record sent for a reference removed at a row of
+    room `rid` is accepted by every peer holding the same room definitions and the removed reference. -/
+theorem C12_accepted_records_reach_peers {d : Ingest.Defects} {p : Ingest.Inst} {rooms : List Room}
+    (hp : p.rooms = rooms) {db db' : Db} {caller : Key} {now : Int} {m : Mut} {cs : List Change}
+    (hpl : plan db now m = .ok cs) (h : mutate Defects.none rooms db caller now m = .ok db') :
+    ∀ c ∈ cs, ∀ rid, c.node ≠ none → c.roomId = some rid → DataEnt d c.entity →
+      (∀ room, getRoom rooms rid = some room → Normalised room) →
+      ∀ e ∈ c.edgeDels,
+        (d.edgeDelSourceUnchecked = true ∨
+          Ingest.edgeDelSourceOk p (toEdgeDel c.entity (tombOf rid caller now e)) = true) →
+        (p.edges.find? (Ingest.edgeMatches (toEdgeDel c.entity (tombOf rid caller now e)))).map (·.key)
+          = some e.author →
+        Ingest.edgeDelAccepted d p (toEdgeDel c.entity (tombOf rid caller now e)) = true := by
+  intro c hc rid hne hroom hent hnorm e he hsrc hheld
+  unfold mutate at h
+  rw [hpl] at h
+  simp only at h
+  split at h
+  · cases h
+  · rename_i l hv
+    obtain ⟨hmap, hall⟩ := validateList_ok hv
+    have : c ∈ l.map (·.1) := by rw [hmap]; exact hc
+    obtain ⟨ct, hct, rfl⟩ := List.mem_map.mp this
+    have ht := (hall ct hct).2 hne rfl
+    have hfull : localOk Defects.none rooms caller now ct.1 = true := by unfold localOk; rw [ht]; rfl
+    rw [localOk_split hroom] at hfull
+    simp only [Bool.and_eq_true] at hfull
+    have hcan := localOk_can hroom hfull.1
+    rw [edge_record_verdict hp hent hsrc hheld]
+    by_cases hown : e.author = caller
+    · rw [if_pos hown]
+      cases hnd : needed ct.1 caller with
+      | mutateSelf => rw [hnd] at hcan; exact hcan
+      | mutateAll => rw [hnd] at hcan; exact canB_all_self hnorm hcan
+    · rw [if_neg hown]
+      rcases Bool.or_eq_true _ _ |>.mp hfull.2 with h1 | h1
+      · exfalso
+        have hany : ct.1.edgeDels.any (fun e => e.author != caller) = true :=
+          List.any_eq_true.mpr ⟨e, he, by simpa using hown⟩
+        rw [hany] at h1; cases h1
+      · exact h1
+
+/-- **C12 (operation level: the references added by an accepted mutation reach the peers).** Intended behaviour.
+    After an accepted mutation (a tree of any depth), every reference it adds at a row of room `rid` is accepted by
+    every peer holding the same room definitions, the written source row, and — as the local database — no reference
+    with the same source, label and target. -/
+theorem C12_accepted_references_reach_peers {d : Ingest.Defects} {p : Ingest.Inst} {rooms : List Room}
+    (hp : p.rooms = rooms) {db db' : Db} {caller : Key} {now : Int} {m : Mut} {cs : List Change}
+    (hpl : plan db now m = .ok cs) (h : mutate Defects.none rooms db caller now m = .ok db') :
+    ∀ c ∈ cs, ∀ rid, c.roomId = some rid → DataEnt d c.entity →
+      (∀ room, getRoom rooms rid = some room → Normalised room) →
+      ∀ e ∈ c.edgeIns, e.cdate = now →
+        (d.edgeSourceUnchecked = true ∨
+          Ingest.edgeSourceOk p rid (toInEdge c.entity (signEdge caller e)).row = true) →
+        (d.edgeReplaceUnchecked = true ∨
+          p.edges.find? (Ingest.edgeKeyEq (toInEdge c.entity (signEdge caller e)).row) = none) →
+        Ingest.edgeAccepted d p rid p.edges (toInEdge c.entity (signEdge caller e)) = true := by
+  intro c hc rid hroom hent hnorm e he hdate hsrc hfresh
+  have hne : c.node ≠ none := by
+    intro hnone
+    have := ((plan_planned hpl c hc).quiet hnone).2
+    rw [this] at he; cases he
+  unfold mutate at h
+  rw [hpl] at h
+  simp only at h
+  split at h
+  · cases h
+  · rename_i l hv
+    obtain ⟨hmap, hall⟩ := validateList_ok hv
+    have : c ∈ l.map (·.1) := by rw [hmap]; exact hc
+    obtain ⟨ct, hct, rfl⟩ := List.mem_map.mp this
+    have ht := (hall ct hct).2 hne rfl
+    have hfull : localOk Defects.none rooms caller now ct.1 = true := by unfold localOk; rw [ht]; rfl
+    exact reference_accepted hp hroom hent hnorm hfull hdate hsrc hfresh
+
+/-- **C12 (node deletion, both directions).** Any switches. The deletion of a stored row of room `rid` is accepted
+    locally iff (with the intended behaviour: the caller may edit every row that references the deleted one, and) a
+    peer holding the same room definitions and the same row accepts the deletion record. -/
+theorem C12_delete_node_verdict {df : Defects} {d : Ingest.Defects} {p : Ingest.Inst} {rooms : List Room}
+    (hp : p.rooms = rooms) {db : Db} {caller : Key} {now : Int} {handle : Nat} {entity : Ent} {row : Row} {rid : Id}
+    (hrow : db.getRow handle entity = some row) (hr : row.room = some rid) (hent : DataEnt d entity)
+    {l : Ingest.NodeRow} (hheld : Ingest.localRow p.nodes handle = some l) (hlk : l.key = row.author)
+    (hle : l.ent = entity) :
+    (deleteNode df rooms db caller now handle entity).toBool =
+      ((df.incomingRefsUnchecked || incomingOk rooms db caller now handle) &&
+        Ingest.nodeDelAccepted d p (toNodeDel (nodeTombOf rid caller now row))) :=
+  delete_node_verdict hp hrow hr hent hheld hlk hle
+
+/-- **C12 (reference deletion, both directions).** Intended behaviour on the local side. The deletion of an existing
+    reference stored at a row of room `rid` is accepted locally iff a peer holding the same room definitions, the
+    source row and the reference accepts the re-signed source row (`validate_node`) AND the deletion record. -/
+theorem C12_delete_ref_verdict {d : Ingest.Defects} {p : Ingest.Inst} {rooms : List Room} (hp : p.rooms = rooms)
+    {db : Db} {caller : Key} {now : Int} {handle : Nat} {entity : Ent} {label dest : Nat} {row : Row} {edge : EdgeRow}
+    {rid : Id} (hrow : db.getRow handle entity = some row) (hr : row.room = some rid)
+    (hedge : db.edges.find? (fun e => e.src = handle && e.label = label && e.dest = dest) = some edge)
+    (hent : DataEnt d entity) (hnorm : ∀ room, getRoom rooms rid = some room → Normalised room)
+    (hsrc : d.edgeDelSourceUnchecked = true ∨
+      Ingest.edgeDelSourceOk p (toEdgeDel entity (tombOf rid caller now edge)) = true)
+    (hheld : (p.edges.find? (Ingest.edgeMatches (toEdgeDel entity (tombOf rid caller now edge)))).map (·.key)
+      = some edge.author) :
+    (deleteRef Defects.none rooms db caller now handle entity label dest).toBool =
+      (Ingest.validateNode Ingest.Defects.none (peerWith rooms []) (toInNode (resigned caller now row))
+          (some (toNodeRow row)) &&
+        Ingest.edgeDelAccepted d p (toEdgeDel entity (tombOf rid caller now edge))) :=
+  delete_ref_verdict rfl hp hrow hr hedge hent hnorm hsrc hheld
 
 /-! ### non-vacuity -/
 
@@ -124,18 +258,104 @@ theorem C12_breaks_refDeletionResign :
     peerVerdictOn rooms01 (deleteRef { Defects.none with refDeletionResign := true } rooms01 db0 5 4 0 1 0 1) 0
       (db0.rows.find? (·.id = 0)) = false := by decide
 
+/-- **C12_breaks_refRightOnEdgeAuthor (#3, second half — still in /repo).** Member 3 (own-rows right only) deletes the
+    reference it once added at row 1, which belongs to member 2: accepted locally (the right is judged on the
+    reference's author); the peers refuse the re-signed row 1 (`validate_node` asks the all-rows right). With the switch
+    off it is refused locally. -/
+theorem C12_breaks_refRightOnEdgeAuthor :
+    (deleteRef { Defects.none with refRightOnEdgeAuthor := true } rooms01 db2 3 4 1 1 0 0).toBool = true ∧
+    peerVerdictOn rooms01 (deleteRef { Defects.none with refRightOnEdgeAuthor := true } rooms01 db2 3 4 1 1 0 0) 1
+      (db2.rows.find? (·.id = 1)) = false ∧
+    (deleteRef Defects.none rooms01 db2 3 4 1 1 0 0).toBool = false := by decide
+
+/-- what the mutation `Person { id: 1, parents: null }` removes and records -/
+def nullParents : Mut := .mk 1 false 1 none none (.null 0)
+
+/-- **C12_breaks_refRemovalRightOnRowAuthor (found by this proof attempt; still in /repo).** Row 1 belongs to member 3,
+    who holds the own-rows right only; the reference 1 → 0 stored there was added by member 2. Member 3 empties the
+    field: accepted locally (the right is judged on the row's author) and the peer accepts the row; the peer refuses
+    the deletion record of the reference (it is somebody else's: all-rows right) — the reference stays on every peer.
+    With the switch off the mutation is refused locally.
+    (Replayed on the real code: findings/C12-mutation-removes-foreign-reference.ops.) -/
+theorem C12_breaks_refRemovalRightOnRowAuthor :
+    (mutate { Defects.none with refRemovalRightOnRowAuthor := true } rooms01 db4 3 4 nullParents).toBool = true ∧
+    peerVerdictOn rooms01 (mutate { Defects.none with refRemovalRightOnRowAuthor := true } rooms01 db4 3 4 nullParents) 1
+      (db4.rows.find? (·.id = 1)) = true ∧
+    Ingest.edgeDelAccepted Ingest.Defects.none (peerHolding rooms01 db4 fun _ => 1)
+      (toEdgeDel 1 (tombOf 0 3 4 ⟨1, 0, 0, 2, 3⟩)) = false ∧
+    (mutate Defects.none rooms01 db4 3 4 nullParents).toBool = false := by decide
+
+-- the hypotheses of the record theorems are met by a concrete peer: it holds the rooms, row 1 in room 0 and the
+-- reference with its author; member 2 (all-rows right) empties the field: accepted on both sides
+example :
+    (peerHolding rooms01 db4 fun _ => 1).rooms = rooms01 ∧
+    DataEnt Ingest.Defects.none 1 ∧
+    Ingest.edgeDelSourceOk (peerHolding rooms01 db4 fun _ => 1) (toEdgeDel 1 (tombOf 0 2 4 ⟨1, 0, 0, 2, 3⟩)) = true ∧
+    ((peerHolding rooms01 db4 fun _ => 1).edges.find?
+      (Ingest.edgeMatches (toEdgeDel 1 (tombOf 0 2 4 ⟨1, 0, 0, 2, 3⟩)))).map (·.key) = some 2 ∧
+    (mutate Defects.none rooms01 db4 2 4 nullParents).toBool = true ∧
+    Ingest.edgeDelAccepted Ingest.Defects.none (peerHolding rooms01 db4 fun _ => 1)
+      (toEdgeDel 1 (tombOf 0 2 4 ⟨1, 0, 0, 2, 3⟩)) = true := by
+  refine ⟨rfl, ⟨by decide, by decide⟩, by decide, by decide, by decide, by decide⟩
+
+-- the rooms of the fixtures hold normalised rights (`Right.new`)
+example : ∀ room, getRoom rooms01 0 = some room → Normalised room := by
+  intro room h
+  have : room = room0 := by
+    have h' : getRoom rooms01 0 = some room0 := by decide
+    rw [h'] at h; cases h; rfl
+  subst this
+  intro a ha x hx
+  revert x
+  revert a
+  decide
+
 /-- **C12_partial (the code as it is).** For a change that does not move the row to another room (and whose
-    previous version, if any, is of the same entity and was in a room), the local right check and `validate_node`
-    give the same verdict whatever the switches of the two models are — in particular for the code as it is on
-    both sides. What is missing with respect to the full statement: room moves (#2), sub-entities under an
-    unchanged parent — which are written without any local check (#1) —, re-signed source rows of reference
-    deletions (#3); and, outside this model, values that only one path refuses (explicit null, Json scalars:
-    DESIGN #14). -/
+    previous version, if any, is of the same entity and was in a room) and that removes no reference signed by
+    somebody else, the local right check and `validate_node` give the same verdict whatever the switches of the two
+    models are — in particular for the code as it is on both sides. What is missing with respect to the full
+    statement: room moves (#2), sub-entities under an unchanged parent — which are written without any local check
+    (#1) —, re-signed source rows of reference deletions (#3), references of other authors removed by a mutation of
+    an own row (`C12_breaks_refRemovalRightOnRowAuthor`); and, outside this model, values that only one path refuses
+    (explicit null, Json scalars: DESIGN #14). -/
 theorem C12_partial (df : Defects) (d : Ingest.Defects) {rooms : List Room} {caller : Key} {now : Int}
     {c : Change} {n : Row} {rid : Id}
     (hroom : c.roomId = some rid) (hn : n.room = some rid) (he : n.entity = c.entity) (hd : n.mdate = now)
-    (hold : ∀ o, c.old = some o → o.entity = c.entity ∧ o.room ≠ none) (hnm : NoMove c) :
+    (hold : ∀ o, c.old = some o → o.entity = c.entity ∧ o.room ≠ none) (hnm : NoMove c)
+    (hown : c.edgeDels.any (fun e => e.author != caller) = false) :
     localOk df rooms caller now c = peerOk d rooms caller c n :=
-  row_verdict_any df d hroom hn he hd hold hnm
+  row_verdict_any df d (Or.inr hown) hroom hn he hd hold hnm
+
+/-- **C12_partial_delete_node (the code as it is, both sides).** The local verdict on the deletion of a stored row of
+    a room equals the verdict of a peer, holding the same room definitions and the same row, on the deletion record
+    — for `Defects.asImplemented` on both sides. (With the intended behaviour the local side also asks for the right
+    to edit the rows that reference the deleted one: `C12_delete_node_verdict`.) -/
+theorem C12_partial_delete_node {p : Ingest.Inst} {rooms : List Room}
+    (hp : p.rooms = rooms) {db : Db} {caller : Key} {now : Int} {handle : Nat} {entity : Ent} {row : Row} {rid : Id}
+    (hrow : db.getRow handle entity = some row) (hr : row.room = some rid)
+    (hent : DataEnt Ingest.Defects.asImplemented entity)
+    {l : Ingest.NodeRow} (hheld : Ingest.localRow p.nodes handle = some l) (hlk : l.key = row.author)
+    (hle : l.ent = entity) :
+    (deleteNode Defects.asImplemented rooms db caller now handle entity).toBool =
+      Ingest.nodeDelAccepted Ingest.Defects.asImplemented p (toNodeDel (nodeTombOf rid caller now row)) := by
+  rw [delete_node_verdict hp hrow hr hent hheld hlk hle]
+  simp [Defects.asImplemented]
+
+/-- **C12_partial_delete_ref (the code as it is).** The local verdict on the deletion of an existing reference equals
+    the peer's verdict on the deletion RECORD, whatever the other switches are; what the code as it is does not ask
+    is what `validate_node` asks for the re-signed source row (`C12_breaks_refRightOnEdgeAuthor`). -/
+theorem C12_partial_delete_ref {df : Defects} (hdf : df.refRightOnEdgeAuthor = true) {d : Ingest.Defects}
+    {p : Ingest.Inst} {rooms : List Room} (hp : p.rooms = rooms) {db : Db} {caller : Key} {now : Int}
+    {handle : Nat} {entity : Ent} {label dest : Nat} {row : Row} {edge : EdgeRow} {rid : Id}
+    (hrow : db.getRow handle entity = some row) (hr : row.room = some rid)
+    (hedge : db.edges.find? (fun e => e.src = handle && e.label = label && e.dest = dest) = some edge)
+    (hent : DataEnt d entity)
+    (hsrc : d.edgeDelSourceUnchecked = true ∨
+      Ingest.edgeDelSourceOk p (toEdgeDel entity (tombOf rid caller now edge)) = true)
+    (hheld : (p.edges.find? (Ingest.edgeMatches (toEdgeDel entity (tombOf rid caller now edge)))).map (·.key)
+      = some edge.author) :
+    (deleteRef df rooms db caller now handle entity label dest).toBool =
+      Ingest.edgeDelAccepted d p (toEdgeDel entity (tombOf rid caller now edge)) :=
+  delete_ref_verdict_record hdf hp hrow hr hedge hent hsrc hheld
 
 end Discret.LocalWrite
